@@ -125,10 +125,15 @@ func SortedKeys[V any](m map[string]V) []string {
 }
 
 var knownKeys = map[string]bool{}
+var knownSpec string
+
+// KnownSpec returns the installed known-findings list.
+func KnownSpec() string { return knownSpec }
 
 // SetKnown installs the list of known findings ("prop|key;prop|key").
 func SetKnown(spec string) {
 	knownKeys = map[string]bool{}
+	knownSpec = spec
 	start := 0
 	for i := 0; i <= len(spec); i++ {
 		if i == len(spec) || spec[i] == ';' {
